@@ -238,6 +238,37 @@ fn e2s<T>(r: anyhow::Result<T>) -> Result<T, String> {
     r.map_err(|e| format!("{:#}", e))
 }
 
+/// The same catalogue issued directly against the cold tier (`HnswBackend` is public API of the library): these
+/// calls do not pass through the tiered engine's write gate, so cold-tier writers, snapshots and tombstone
+/// compaction really run concurrently. Operations without a cold-tier counterpart fall back to the tiered call.
+pub fn exec_cold(b: &Built, op: &ApiOp) -> ApiRes {
+    let c = b.engine.cold_tier();
+    match op {
+        ApiOp::Insert { id, vec, meta } => {
+            let mut v = unbits(vec);
+            // the cold tier expects what the tiered engine would hand it: a normalised vector for cosine / inner product
+            if b.cfg.metric != 1 {
+                let n = v.iter().map(|x| (*x as f64) * (*x as f64)).sum::<f64>().sqrt();
+                if n > 0.0 && n.is_finite() {
+                    for x in v.iter_mut() {
+                        *x = (*x as f64 / n) as f32;
+                    }
+                }
+            }
+            ApiRes::Unit(e2s(c.insert(*id, v, to_hash(meta))))
+        }
+        ApiOp::Delete { id } => ApiRes::Bool(e2s(c.delete(*id))),
+        ApiOp::BatchDelete { ids } => ApiRes::Count(e2s(c.batch_delete(ids)).map(|n| n as u64)),
+        ApiOp::UpdateMeta { id, meta, merge } => ApiRes::Bool(e2s(c.update_metadata(*id, to_hash(meta), *merge))),
+        ApiOp::Query { id } | ApiOp::GetEmb { id } => ApiRes::Vector(c.fetch_document(*id).map(|v| bits(&v))),
+        ApiOp::GetMeta { id } => ApiRes::MetaOnly(c.fetch_metadata(*id).map(|m| to_btree(&m))),
+        ApiOp::BulkQuery { ids, .. } => ApiRes::Docs(c.bulk_fetch(ids).into_iter().map(|o| o.map(|(v, m)| (bits(&v), to_btree(&m)))).collect()),
+        ApiOp::Exists { id } => ApiRes::Exists(c.exists(*id)),
+        ApiOp::Knn { q, k } => ApiRes::Hits(e2s(c.knn_search(&unbits(q), *k)).map(|r| r.into_iter().map(|x| (x.doc_id, x.distance.to_bits())).collect())),
+        _ => exec(b, op),
+    }
+}
+
 pub fn exec(b: &Built, op: &ApiOp) -> ApiRes {
     let e = &b.engine;
     match op {
@@ -309,6 +340,26 @@ pub fn gen_op(rng: &mut crate::rng::Rng, c: &TCfg, universe: u64, write_no: &mut
     };
     let r = rng.below(100);
     match mix {
+        // writers, snapshots and filter reads against the cold tier
+        "cold" => match r {
+            0..=24 => mk_insert(rng, id),
+            25..=39 => ApiOp::Delete { id },
+            40..=46 => ApiOp::BatchDelete { ids: (0..rng.range(1, 3)).map(|_| rng.below(universe + 1)).collect() },
+            47..=58 => {
+                *write_no += 1;
+                ApiOp::UpdateMeta { id, meta: gen_meta(rng, *write_no), merge: rng.chance(1, 2) }
+            }
+            59..=74 => ApiOp::Snapshot,
+            75..=79 => ApiOp::Query { id },
+            80..=84 => ApiOp::BulkQuery { ids: vec![id, rng.below(universe)], emb: true },
+            85..=89 => {
+                *write_no += 1;
+                ApiOp::Knn { q: bits(&gen_vector(rng, c.dim, *write_no)), k: 2 }
+            }
+            90..=93 => ApiOp::IdsForFilter { key: "k".into(), value: "5".into() },
+            94..=96 => ApiOp::GetMeta { id },
+            _ => ApiOp::Exists { id },
+        },
         "point" => match r {
             0..=29 => mk_insert(rng, id),
             30..=44 => ApiOp::Delete { id },
